@@ -144,10 +144,11 @@ namespace {
 
    // ================================= Pass B: histories =========================================================
    enum Op { Farm, Tree, Ident, Literal, Symbol, Label, Enumerator, Parameter, Base, Handler, ModuleUnit, PragmaToken, CaptureOp, Designator, ScopeMember, Redeclare,
-             ExprListMember, WarehouseProduct, Subregion, ClassField, BlockStmt, BindingId, NOPS };
+             ExprListMember, WarehouseProduct, Subregion, ClassField, BlockStmt, BindingId, OtherLexiconDies, OtherLexiconStays, NOPS };
    const char* op_name[] = { "make_plus", "get_pointer", "get_identifier", "get_literal", "get_symbol", "get_label", "enum.add_member", "mapping.param", "class.declare_base", "block.new_handler",
                              "module.make_unit", "pragma.tokens.push_back", "closure.captures.push_back", "using.seq.push_back", "region.declare_var(fresh)", "region.declare_var(x,int) again",
-                             "expr_list.push_back", "get_product+get_sum(warehouse);destroy+scribble", "make_subregion+declare", "class.declare_field", "block.add_stmt", "structured_binding.ids.push_back" };
+                             "expr_list.push_back", "get_product+get_sum(warehouse);destroy+scribble", "make_subregion+declare", "class.declare_field", "block.add_stmt", "structured_binding.ids.push_back",
+                             "another Lexicon builds and prints a graph of its own, and dies", "another Lexicon builds and prints a graph of its own, and stays" };
 
    struct Snap {
       std::string label;
@@ -163,6 +164,7 @@ namespace {
       ipr::impl::Translation_unit unit{ lex };
       zoo::Ctx ctx{ lex, unit };
       std::unique_ptr<ipr::impl::Module> module;
+      std::vector<std::unique_ptr<vf::prelude_detail::Decoy>> others;      // (declared before the members below: destroyed after them is irrelevant, they share nothing)
       ipr::impl::Region* R;
       ipr::impl::Enum* E;
       ipr::impl::Class* C;
@@ -362,6 +364,10 @@ namespace {
          case Subregion: { auto* r = R->make_subregion(); auto* v = r->declare_var(lex.get_identifier(u8"x"), lex.int_type()); must_be_fresh(*r, op_name[op]); add_node("subregion" + tag, *r, true); add_node("subvar" + tag, *v, true); break; }
          case ClassField: { auto* f = C->declare_field(lex.get_identifier(word(u8"f")), lex.int_type()); must_be_fresh(*f, op_name[op]); model_field.push_back(f); add_node("field" + tag, *f, true); dirty = { "C" }; break; }
          case BlockStmt: { auto* s = lex.make_expr_stmt(ctx.E(0)); must_be_fresh(*s, op_name[op]); B->add_stmt(*s); model_stmt.push_back(s); add_node("stmt" + tag, *s, true); dirty = { "B" }; break; }
+         // nothing this Lexicon handed out may change because ANOTHER Lexicon was used (the decoy program of engine/prelude.hpp: every kind of
+         // construction, lookups, substitutions, printing), whether that one is destroyed at once or stays
+         case OtherLexiconDies: { vf::prelude_detail::Decoy d{ vf::prelude_detail::ALL }; dirty = { }; break; }
+         case OtherLexiconStays: { others.push_back(std::make_unique<vf::prelude_detail::Decoy>(vf::prelude_detail::ALL)); dirty = { }; break; }
          case BindingId: { auto& i = lex.get_identifier(word(u8"b")); SB->ids.push_back(&i); model_ids.push_back(&i); dirty = { "SB" }; break; }
          }
          return dirty;
